@@ -615,7 +615,11 @@ fn gen(a: &Args) {
         for _ in 0..n { let args = rand_str_args(&mut rng, f.0); str_case(&mut w, &mut sut, f.0, &args, "str:random"); }
     }
     for s0 in ["", "a", "héllo", "e\u{301}\u{301}", "日本語", "𝄞x", "a\u{10FFFF}b", "  x  ", "\u{3000}x\u{a0}", "it's", "ÀB", "ß"] {
-        for f in SFNS { if f.2 == 1 && f.3 == 1 { str_case(&mut w, &mut sut, f.0, &[SA::T(s0.to_string())], "str:fixed"); } }
+        for f in SFNS {
+            if f.2 != 1 || f.3 != 1 || f.0 == "SPACE" { continue; }
+            if (f.0 == "UPPER" || f.0 == "LOWER") && !s0.is_ascii() { continue; }       // Unicode case mapping is not modelled
+            str_case(&mut w, &mut sut, f.0, &[SA::T(s0.to_string())], "str:fixed");
+        }
         for k in [-1i64, 0, 1, 2, 3, 100, i64::MAX, i64::MIN] {
             for nm in ["LEFT", "RIGHT", "SUBSTR"] { str_case(&mut w, &mut sut, nm, &[SA::T(s0.to_string()), SA::I(k)], "str:fixed"); }
         }
@@ -667,21 +671,222 @@ fn replay_line(w: &mut CaseWriter, sut: &mut Sut, l: &str) {
 }
 
 // ------------------------------------------------------------------ search: the property's oracle on the implementation only
+/// expected result of the property's oracle (Rust ports of fn_exact / str_exact / date_exact of the Coq Spec)
+#[derive(Clone, Debug, PartialEq)]
+enum Exp { Int(i128), Text(String), Null, DivZ, Over, Any }
+fn exp_ok(x: &Exp, o: &Out) -> bool {
+    match o {
+        Out::Panic => false,
+        Out::Err => matches!(x, Exp::DivZ | Exp::Over | Exp::Any),
+        Out::None | Out::Val(V::Null) => matches!(x, Exp::Null | Exp::DivZ | Exp::Any),
+        Out::Val(v) => match (x, v) {
+            (Exp::Int(z), V::Int(n)) => *z == *n as i128,
+            (Exp::Int(z), V::FltI(n)) => z == n,
+            (Exp::Text(t), V::Text(b)) => t.as_bytes() == b.as_slice(),
+            (Exp::Any, _) => true,
+            _ => false,
+        },
+    }
+}
+fn r53(n: i64) -> i128 { (n as f64) as i128 }
+fn num_exact(name: &str, a: &[Option<i64>]) -> (Exp, u32) {
+    let ints: Vec<i64> = a.iter().flatten().cloned().collect();
+    let any_null = a.iter().any(|x| x.is_none());
+    let in64 = |x: i128| if x >= i64::MIN as i128 && x <= i64::MAX as i128 { Exp::Int(x) } else { Exp::Over };
+    let f64_class = |e: Exp| { let c = if ints.iter().any(|n| r53(*n) != *n as i128) { 3 } else { 0 }; (e, c) };
+    match (name, a) {
+        ("ABS", [Some(n)]) => { let e = in64((*n as i128).abs()); let c = if e == Exp::Over { 1 } else { 0 }; (e, c) }
+        ("SIGN", [Some(n)]) => (Exp::Int(n.signum() as i128), 0),
+        ("CEIL", [Some(n)]) | ("FLOOR", [Some(n)]) => (Exp::Int(*n as i128), 0),
+        ("ROUND", [Some(n)]) | ("TRUNCATE", [Some(n)]) | ("ROUND", [Some(n), Some(0)]) | ("TRUNCATE", [Some(n), Some(0)]) => f64_class(Exp::Int(*n as i128)),
+        ("ABS", [None]) | ("SIGN", [None]) | ("CEIL", [None]) | ("FLOOR", [None]) | ("ROUND", [None]) | ("TRUNCATE", [None]) => (Exp::Null, 0),
+        ("MOD", [Some(x), Some(y)]) => f64_class(if *y == 0 { Exp::DivZ } else { Exp::Int((*x as i128) % (*y as i128)) }),
+        ("DIV", [Some(x), Some(y)]) => { let e = if *y == 0 { Exp::DivZ } else { in64((*x as i128) / (*y as i128)) }; let c = if e == Exp::Over { 1 } else { 0 }; (e, c) }
+        ("MOD", [_, _]) | ("DIV", [_, _]) => (Exp::Null, 0),
+        ("GREATEST", [Some(_), ..]) => (if any_null { Exp::Any } else { Exp::Int(*ints.iter().max().unwrap() as i128) }, 0),
+        ("LEAST", [Some(_), ..]) => (if any_null { Exp::Any } else { Exp::Int(*ints.iter().min().unwrap() as i128) }, 0),
+        ("IF", [c, x, y]) => { let v = if matches!(c, Some(n) if *n != 0) { x } else { y }; (v.map_or(Exp::Null, |n| Exp::Int(n as i128)), 0) }
+        ("IFNULL", [x, y]) => (x.or(*y).map_or(Exp::Null, |n| Exp::Int(n as i128)), 0),
+        ("NULLIF", [Some(x), Some(y)]) => (if x == y { Exp::Null } else { Exp::Int(*x as i128) }, 0),
+        ("NULLIF", [None, _]) => (Exp::Null, 0),
+        ("NULLIF", [Some(x), None]) => (Exp::Int(*x as i128), 0),
+        ("COALESCE", [_, ..]) => (ints.first().map_or(Exp::Null, |n| Exp::Int(*n as i128)), 0),
+        ("ISNULL", [x]) => (Exp::Int(if x.is_none() { 1 } else { 0 }), 0),
+        _ => (Exp::Any, 0),
+    }
+}
+fn find_chars(h: &[char], n: &[char]) -> Option<usize> {
+    if n.len() > h.len() { return None; }
+    (0..=h.len() - n.len()).find(|i| &h[*i..*i + n.len()] == n)
+}
+fn cycle(p: &[char], k: usize) -> Vec<char> { (0..k).map(|i| p[i % p.len()]).collect() }
+/// character-level reference for the string functions (the documented meaning), and the finding class of the input
+fn str_exact(name: &str, a: &[SA]) -> (Exp, u32) {
+    let cs = |i: usize| -> Option<Vec<char>> { match a.get(i) { Some(SA::T(s)) => Some(s.chars().collect()), _ => None } };
+    let int = |i: usize| -> Option<i64> { match a.get(i) { Some(SA::I(n)) => Some(*n), _ => None } };
+    let txt = |v: Vec<char>| Exp::Text(v.into_iter().collect());
+    let mut class = 0;
+    match name {
+        "INSTR" => if let (Some(h), Some(n)) = (cs(0), cs(1)) { if let Some(k) = find_chars(&h, &n) { if !h[..k].iter().all(|c| c.is_ascii()) { class = 4; } } },
+        "SUBSTR" => if cs(0).is_some() { if int(1) == Some(i64::MIN) { class = 5; } else if int(1).is_some() && a.len() == 3 && a[2] == SA::N { class = 7; } },
+        "LPAD" => if let (Some(_), Some(n), Some(p)) = (cs(0), int(1), cs(2)) { if n < 0 && !p.is_empty() { class = 6; } },
+        "LOCATE" => if cs(0).is_some() && cs(1).is_some() && a.len() == 3 && a[2] == SA::N { class = 7; },
+        _ => {}
+    }
+    if a.iter().any(|x| *x == SA::N) { return (Exp::Null, class); }
+    let e = match (name, a.len()) {
+        ("LENGTH", 1) => match &a[0] { SA::T(s) => Exp::Int(s.len() as i128), _ => Exp::Any },
+        ("CHAR_LENGTH", 1) => cs(0).map_or(Exp::Any, |c| Exp::Int(c.len() as i128)),
+        ("ASCII", 1) => cs(0).map_or(Exp::Any, |c| match c.first() { None => Exp::Int(0), Some(ch) if ch.is_ascii() => Exp::Int(*ch as i128), _ => Exp::Any }),
+        ("UPPER", 1) => cs(0).map_or(Exp::Any, |c| if c.iter().all(|x| x.is_ascii()) { txt(c.iter().map(|x| x.to_ascii_uppercase()).collect()) } else { Exp::Any }),
+        ("LOWER", 1) => cs(0).map_or(Exp::Any, |c| if c.iter().all(|x| x.is_ascii()) { txt(c.iter().map(|x| x.to_ascii_lowercase()).collect()) } else { Exp::Any }),
+        ("LEFT", 2) => match (cs(0), int(1)) { (Some(c), Some(n)) => txt(if n < 0 { vec![] } else { c.iter().take(n.min(c.len() as i64) as usize).cloned().collect() }), _ => Exp::Any },
+        ("RIGHT", 2) => match (cs(0), int(1)) { (Some(c), Some(n)) => txt(if n < 0 { vec![] } else { let k = (n.min(c.len() as i64)) as usize; c[c.len() - k..].to_vec() }), _ => Exp::Any },
+        ("SUBSTR", 2) | ("SUBSTR", 3) => match (cs(0), int(1)) {
+            (Some(c), Some(pos)) => {
+                let len = c.len() as i128;
+                if pos == 0 { txt(vec![]) } else if (pos as i128) < -len { Exp::Any } else {
+                    let start = (if pos > 0 { pos as i128 - 1 } else { len + pos as i128 }).min(len) as usize;
+                    if a.len() == 2 { txt(c[start..].to_vec()) } else { match int(2) { Some(l) => txt(if l < 1 { vec![] } else { c[start..].iter().take(l.min(c.len() as i64) as usize).cloned().collect() }), None => Exp::Any } }
+                }
+            }
+            _ => Exp::Any },
+        ("REVERSE", 1) => cs(0).map_or(Exp::Any, |c| txt(c.into_iter().rev().collect())),
+        ("LPAD", 3) | ("RPAD", 3) => match (cs(0), int(1), cs(2)) {
+            (Some(c), Some(n), Some(p)) => if n < 0 { Exp::Any } else if n as usize <= c.len() { txt(c[..n as usize].to_vec()) } else if p.is_empty() || n > 65536 { Exp::Any }
+                else { let pad = cycle(&p, n as usize - c.len()); txt(if name == "LPAD" { [pad, c].concat() } else { [c, pad].concat() }) },
+            _ => Exp::Any },
+        ("INSTR", 2) => match (cs(0), cs(1)) { (Some(h), Some(n)) => Exp::Int(find_chars(&h, &n).map_or(0, |k| k as i128 + 1)), _ => Exp::Any },
+        ("LOCATE", 2) | ("LOCATE", 3) => match (cs(0), cs(1)) {
+            (Some(n), Some(h)) => if n.is_empty() { Exp::Any } else if a.len() == 2 { Exp::Int(find_chars(&h, &n).map_or(0, |k| k as i128 + 1)) } else { match int(2) {
+                Some(st) if st >= 1 => { let s0 = ((st - 1) as u64).min(h.len() as u64) as usize; Exp::Int(find_chars(&h[s0..], &n).map_or(0, |k| k as i128 + st as i128)) }
+                _ => Exp::Any } },
+            _ => Exp::Any },
+        ("REPEAT", 2) => match (cs(0), int(1)) { (Some(c), Some(n)) => if n <= 0 { txt(vec![]) } else if n * c.len() as i64 <= 65536 { txt((0..n).flat_map(|_| c.clone()).collect()) } else { Exp::Any }, _ => Exp::Any },
+        ("SPACE", 1) => match int(0) { Some(n) => if n <= 0 { txt(vec![]) } else if n <= 65536 { txt(vec![' '; n as usize]) } else { Exp::Any }, None => Exp::Any },
+        ("TRIM", 1) | ("LTRIM", 1) | ("RTRIM", 1) => match &a[0] { SA::T(s) => {
+            let (sp, ws) = match name { "TRIM" => (s.trim_matches(' '), s.trim()), "LTRIM" => (s.trim_start_matches(' '), s.trim_start()), _ => (s.trim_end_matches(' '), s.trim_end()) };
+            if sp == ws { Exp::Text(sp.to_string()) } else { Exp::Any } }, _ => Exp::Any },
+        ("CONCAT", _) => { let mut r = String::new(); let mut ok = true; for x in a { if let SA::T(s) = x { r.push_str(s) } else { ok = false } } if ok { Exp::Text(r) } else { Exp::Any } }
+        ("STRCMP", 2) => match (cs(0), cs(1)) { (Some(x), Some(y)) => Exp::Int(match x.cmp(&y) { std::cmp::Ordering::Less => -1, std::cmp::Ordering::Equal => 0, _ => 1 }), _ => Exp::Any },
+        ("INSERT", 4) => match (cs(0), int(1), int(2), cs(3)) {
+            (Some(c), Some(pos), Some(len), Some(n)) => { let l = c.len() as i128; let p = pos as i128;
+                if p < 1 || p > l + 1 { txt(c) } else if p == l + 1 || len < 0 { Exp::Any }
+                else { let st = (p - 1) as usize; let e = ((p - 1 + len as i128).min(l)) as usize; txt([c[..st].to_vec(), n, c[e..].to_vec()].concat()) } }
+            _ => Exp::Any },
+        _ => Exp::Any,
+    };
+    (e, class)
+}
+/// calendar reference that shares nothing with the implementation's formulas: day number by summing year and month lengths
+fn rata(y: i64, m: i64, d: i64) -> i64 {
+    let mut n = 0i64;
+    let y1 = y - 1;
+    n += 365 * y1 + y1 / 4 - y1 / 100 + y1 / 400;          // days before the year (1 <= y), closed form of the sum of year lengths
+    for j in 1..m { n += dim(y, j); }
+    n + d - 1
+}
+fn date_of_rata(n: i64) -> (i64, i64, i64) {
+    let mut y = n / 366 + 1;
+    while rata(y + 1, 1, 1) <= n { y += 1; }
+    let mut rest = n - rata(y, 1, 1);
+    let mut m = 1;
+    while m < 12 && rest >= dim(y, m) { rest -= dim(y, m); m += 1; }
+    (y, m, rest + 1)
+}
+fn date_exact(name: &str, a: &[DA]) -> (Exp, u32) {
+    let real = |x: &DA| matches!(x, DA::D(y, m, d) if *y >= 1 && *y <= 9999 && is_valid_date(*y, *m, *d));
+    let fmt = |(y, m, d): (i64, i64, i64)| Exp::Text(format!("{:04}-{:02}-{:02}", y, m, d));
+    // class 8 (same predicate as dfn_class in Model/DateFun.v): the day arithmetic, done in i64 in the order the code does it, overflows
+    let dtd_safe = |days: i64| -> bool { (|| {
+        let z = days.checked_add(306)?; let h = 100i64.checked_mul(z)?.checked_sub(25)?; let a = h / 3652425; let b = a.checked_sub(a / 4)?;
+        let y = 100i64.checked_mul(b)?.checked_add(h)? / 36525; let c = b.checked_add(z)?.checked_sub(365i64.checked_mul(y)?)?.checked_sub(y / 4)?;
+        let m = 5i64.checked_mul(c)?.checked_add(456)? / 153; c.checked_sub(153i64.checked_mul(m)?.checked_sub(457)? / 5)?;
+        if m > 12 { y.checked_add(1)?; } Some(()) })().is_some() };
+    let to_days = |y: i64, m: i64, d: i64| -> i64 { let (yy, mm) = if m <= 2 { (y - 1, m + 12) } else { (y, m) }; 365 * yy + yy / 4 - yy / 100 + yy / 400 + (153 * (mm - 3) + 2) / 5 + d - 306 };
+    let mut class = 0;
+    match (name, a) {
+        ("FROM_DAYS", [DA::I(n)]) => if !dtd_safe(*n) { class = 8; },
+        ("DATE_ADD", [DA::D(y, m, d), DA::I(k)]) | ("DATE_SUB", [DA::D(y, m, d), DA::I(k)]) => {
+            let base = to_days(*y, *m, *d);
+            let n = if name == "DATE_ADD" { base.checked_add(*k) } else { base.checked_sub(*k) };
+            if !n.map_or(false, dtd_safe) { class = 8; }
+        }
+        _ => {}
+    }
+    if matches!(a.first(), Some(DA::N)) || (a.len() == 2 && a[1] == DA::N) { return (Exp::Null, class); }
+    let e = match (name, a) {
+        (_, [x @ DA::D(y, m, d)]) if real(x) => match name {
+            "YEAR" => Exp::Int(*y as i128), "MONTH" => Exp::Int(*m as i128), "DAY" => Exp::Int(*d as i128),
+            "DAYOFWEEK" => Exp::Int(((rata(*y, *m, *d) + 1) % 7 + 1) as i128),
+            "DAYOFYEAR" => Exp::Int((rata(*y, *m, *d) - rata(*y, 1, 1) + 1) as i128),
+            "LAST_DAY" => fmt((*y, *m, dim(*y, *m))),
+            _ => Exp::Any,
+        },
+        ("DATEDIFF", [x @ DA::D(y1, m1, d1), z @ DA::D(y2, m2, d2)]) if real(x) && real(z) => Exp::Int((rata(*y1, *m1, *d1) - rata(*y2, *m2, *d2)) as i128),
+        ("DATE_ADD", [x @ DA::D(y, m, d), DA::I(k)]) | ("DATE_SUB", [x @ DA::D(y, m, d), DA::I(k)]) if real(x) => {
+            let n = if name == "DATE_ADD" { rata(*y, *m, *d) as i128 + *k as i128 } else { rata(*y, *m, *d) as i128 - *k as i128 };
+            if n >= 0 && n <= rata(9999, 12, 31) as i128 { fmt(date_of_rata(n as i64)) } else { Exp::Any }
+        }
+        _ => Exp::Any,
+    };
+    (e, class)
+}
+
 fn search(a: &Args) {
     let mut rng = Rng::new(a.seed ^ 0xC20C20);
     let mut sut = Sut::new();
     let mut fails: Vec<String> = vec![];
+    let mut per_class: std::collections::BTreeMap<String, u32> = Default::default();
     let mut tried: u64 = 0;
-    let budget = a.budget.min(400_000);
+    let budget = a.budget.min(600_000);
+    let mut note = |fails: &mut Vec<String>, line: String, class: u32| {
+        let k = format!("{}:{}", line.split_whitespace().take(2).collect::<Vec<_>>().join(" "), class);
+        let c = per_class.entry(k).or_insert(0);
+        *c += 1;
+        // keep a few per (function, class) so that a new failure is not crowded out by the recorded ones
+        if *c <= 3 && fails.len() < 400 { fails.push(format!("{} #class={}", line, class)); }
+    };
     while tried < budget {
-        let d = 1 + rng.below(3) as u32;
-        let e = rand_expr(&mut rng, d);
-        let o = sut.select1(&format!("SELECT {}", e.sql()));
+        match rng.below(10) {
+            0..=3 => {
+                let d = 1 + rng.below(3) as u32;
+                let e = rand_expr(&mut rng, d);
+                let o = sut.select1(&format!("SELECT {}", e.sql()));
+                let (x, _, _) = exact(&e);
+                if !obs_ok(x, &o) { note(&mut fails, format!("arith {}", e.sexp()), arith_class(&e)); }
+            }
+            4 | 5 => {
+                let f = rng.pick(&NFNS).0;
+                let args = rand_num_args(&mut rng, f);
+                let vals: Vec<Option<Value<'static>>> = args.iter().map(arg_val).collect();
+                let d = call_direct(f, &vals);
+                let (x, c) = num_exact(f, &args);
+                if !exp_ok(&x, &d) { note(&mut fails, format!("num {} {}", f, args.iter().map(|a| match a { None => "NULL".to_string(), Some(v) => v.to_string() }).collect::<Vec<_>>().join(" ")), c); }
+            }
+            6 | 7 | 8 => {
+                let f = rng.pick(&SFNS).0;
+                let args = rand_str_args(&mut rng, f);
+                if !str_args_runnable(f, &args) { continue; }
+                let vals: Vec<Option<Value<'static>>> = args.iter().map(|a| a.val()).collect();
+                let d = call_direct(f, &vals);
+                let (x, c) = str_exact(f, &args);
+                if !exp_ok(&x, &d) { note(&mut fails, format!("str {} {}", f, args.iter().map(|a| a.tok()).collect::<Vec<_>>().join(" ")), c); }
+            }
+            _ => {
+                let f = rng.pick(&DFNS).0;
+                let args = rand_date_args(&mut rng, f);
+                let vals: Vec<Option<Value<'static>>> = args.iter().map(|a| a.val()).collect();
+                let d = call_direct(f, &vals);
+                let (x, c) = date_exact(f, &args);
+                if !exp_ok(&x, &d) { note(&mut fails, format!("date {} {}", f, args.iter().map(|a| a.tok()).collect::<Vec<_>>().join(" ")), c); }
+            }
+        }
         tried += 1;
-        let (x, _, _) = exact(&e);
-        if !obs_ok(x, &o) && fails.len() < 60 { fails.push(format!("arith {} #class={}", e.sexp(), arith_class(&e))); }
     }
     sut.cleanup();
+    // failures outside every recorded class first
+    fails.sort_by_key(|l| if l.ends_with("#class=0") { 0 } else { 1 });
     let mut out = format!("tried={}\n", tried);
     for f in &fails { out.push_str("FAIL "); out.push_str(f); out.push('\n'); }
     std::fs::write(&a.out, out).expect("write search output");
